@@ -470,12 +470,14 @@ func (r rule) GetAsMap() map[string][]string {
 //			{key: "label", values: rule{{Key: "power-profiles-daemon"}}},
 //		}},
 func (r rule) GetValues(key string) rule {
+	var res rule
 	for _, kv := range r {
 		if kv.key == key {
-			return kv.values
+			// A condition can be repeated (set=hup set=term): all of them
+			res = append(res, kv.values...)
 		}
 	}
-	return nil
+	return res
 }
 
 // GetValuesAsSlice return the values from a key as a slice.
